@@ -11,6 +11,8 @@
        recorded step-boundary state, continue to the reference end state, and the trajectory must not change
    (c) hunt for the refuted clause (synchronize outside the mutex -> torn snapshot)            [known finding when it hits]
    (e) save/load of simulation B while simulation A's server thread handles requests (descriptor double close) [known finding when it hits]
+   (l) every server scenario also against the UNOBSERVED run (no server, nothing ever serialised); scenarios with variational particles /
+       MEGNO, test particles, a user ODE, collisions; correspondence of the audited IAS15 compression with the Gallina model
    (j) per integrator type: 4 simulations of that type at the same time in 4 threads vs sequentially (same-code-path overlap)
    (i) co-residency, one class per kind of process-global state (libc rng, static caches): B alone in a fresh process vs after / next to
        other simulations vs served + continued
@@ -187,6 +189,20 @@ def run(ctx):
     ctx.rng.shuffle(srv_integs)
     for integ in (srv_integs if ctx.thorough else srv_integs[:4]):
         jobs.append(("server:" + integ, libdir, "server", server_params(ctx, integ), 240))
+    # optional state the serializer has to carry: variational particles / MEGNO, test particles, a user ODE, collisions
+    for oname, ospec, tm, sl in (
+            ("ias15+megno", {"integrator": "ias15", "megno": 1}, 15.0, 0.2),
+            ("ias15+variations+testparticles", {"integrator": "ias15", "variations": ctx.rng.randint(1, 3), "n_test": ctx.rng.randint(1, 3)}, 15.0, 0.2),
+            ("whfast+variations+testparticles", {"integrator": "whfast", "variations": ctx.rng.randint(1, 2), "n_test": ctx.rng.randint(1, 3), "safe_mode": 1}, 1.0, 4.0),
+            ("leapfrog+megno", {"integrator": "leapfrog", "megno": 1}, 1.0, 4.0),
+            ("bs+ode", {"integrator": "bs", "ode": 1}, 40.0, 0.1),
+            ("collisions", {"kind": "collide", "n": ctx.rng.randint(25, 40), "gravity": "none"}, 0.4, 3.0)):
+        po = server_params(ctx, ospec.get("integrator", "leapfrog"))
+        po["spec"] = dict(po["spec"], **ospec)
+        po["spec"]["tmax"] = tm
+        po.update({"tmax": tm, "sleep_ms": sl, "calls": ctx.rng.choice([1, 2]), "hb_two_writes": False,
+                   "continue": 0 if oname in ("bs+ode",) else 3})
+        jobs.append(("server-opt:" + oname, libdir, "server", po, 240))
     pt = {"seed": ctx.rng.randint(1, 10 ** 6), "N": ctx.scale(12000, 20000), "clients": 2, "seconds": ctx.scale(3, 12)}
     jobs.append(("torn:eft0", libdir, "torn", dict(pt, eft=0), 400))      # synchronize after the loop (inside the mutex since /repo 8c50374)
     jobs.append(("torn:eft1", libdir, "torn", dict(pt, eft=1, seed=pt["seed"] + 7), 400))   # synchronize inside reb_check_exit (inside the mutex since /repo 8306d1e)
@@ -236,11 +252,11 @@ def run(ctx):
     other_keys = [k for k in kk if k not in (81, 32, 264, 267)] + [ctx.rng.randint(65, 90), ctx.rng.randint(300, 400)]
     other_keys = [k for k in other_keys if k != 81]
     for integ, extra, us, tm in (("whfast", {"safe_mode": 0, "corrector": ctx.rng.choice([0, 11])}, 200, 30.0), ("mercurius", {"safe_mode": 0}, 300, 25.0),
-                                 ("saba", {"safe_mode": 0}, 200, 30.0), ("ias15", {}, 4000, 40.0)):
+                                 ("saba", {"safe_mode": 0}, 200, 30.0), ("ias15", {}, 4000, 40.0), ("ias15", {"megno": 1, "n_test": 1}, 4000, 40.0)):
         pk = {"seed": ctx.rng.randint(1, 10 ** 6), "spec": dict({"integrator": integ, "n": ctx.rng.randint(2, 4), "seed": ctx.rng.randint(1, 10 ** 6),
               "dt": 0.01}, **extra), "tmax": tm, "usleep_us": us, "pause_at": round(ctx.rng.uniform(0.15, 0.5), 3),
               "pulls_before": ctx.rng.randint(0, 3), "pulls_after": ctx.rng.randint(0, 3), "page_down": True, "other_keys": other_keys}
-        jobs.append(("keyboard:" + integ, libdir, "keyboard", pk, 240))
+        jobs.append(("keyboard:" + integ + ("+megno" if extra.get("megno") else ""), libdir, "keyboard", pk, 240))
     groups = []
     for integ in INTEGRATORS:
         cost = {"ias15": 40.0, "bs": 15.0, "mercurius": 60.0, "trace": 60.0, "janus": 150.0, "saba": 150.0, "eos": 120.0}.get(integ, 300.0)
@@ -248,6 +264,7 @@ def run(ctx):
                   "safe_mode": 1, "corrector": ctx.rng.choice([0, 3]), "tmax": round(cost * ctx.rng.uniform(0.8, 1.2), 2)} for _ in range(4)]
         groups.append({"name": integ, "specs": specs, "rounds": ctx.scale(2, 6)})
     jobs.append(("hammer", libdir, "hammer", {"groups": groups}, 400))
+    jobs.append(("compress", libdir, "compress", {"seed": ctx.rng.randint(1, 10 ** 6), "cases": ctx.scale(120, 600)}, 240))
     jobs.append(("teardown", libdir, "teardown", {"seed": ctx.rng.randint(1, 10 ** 6), "spec": {"integrator": "whfast", "n": 3, "seed": ctx.rng.randint(1, 10 ** 6),
                  "dt": 0.01}, "tmax": 2.0, "iterations": ctx.scale(12, 60), "clients": 3}, 300))
     jobs.append(("fdclose", libdir, "fdclose", {"seed": ctx.rng.randint(1, 10 ** 6), "N": 3000, "clients": 3, "seconds": ctx.scale(4, 12)}, 200))
@@ -334,6 +351,29 @@ def run(ctx):
                 m = res["mismatch"][0]
                 ctx.violation("concurrent:" + m["spec"]["integrator"], dict(replay, first_mismatch=m), True,
                               "simulation run concurrently with others ends in different bits than when run alone")
+        elif mode == "compress":
+            cases = res["cases"]
+            body = ("From Coq Require Import List Arith.\nFrom RV Require Import C19.Conc.\nImport ListNotations.\n"
+                    "Definition cases : list (nat * nat * nat) := [%s].\n"
+                    "Fixpoint bad (l : list (nat * nat * nat)) (i : nat) : list nat := match l with [] => [] | (a, n, e) :: r => "
+                    "(if Nat.eqb (ias15_compress a n) e then [] else [i]) ++ bad r (S i) end.\nEval vm_compute in (bad cases 0).\n"
+                    % "; ".join("(%d, %d, %d)" % (c[0], c[1], c[3]) for c in cases))
+            ok, out = vlib.coq_eval("c19_compress", body)
+            badidx = vlib.parse_coq_list_nat(out) if ok else None
+            second = [i for i, c in enumerate(cases) if c[4] != c[3] or not c[5]]
+            ctx.traces += len(cases) if badidx is not None else 0
+            ctx.evaluations += len(cases)
+            for c in cases:
+                ctx.case(key=("compress", c[0] > 3 * c[1], c[2] > 0, c[0] == 0))
+            ctx.obligation("correspondence:C19 Gallina ias15_compress == ri_ias15.N_allocated after reb_simulation_save_to_stream on the library, %d "
+                           "simulations (with/without variational particles, shrunk N, unstepped); a second serialisation changes nothing and yields the "
+                           "same bytes" % len(cases), badidx == [] and not second,
+                           "coq: %s; mismatching cases %s; not idempotent %s" % (out[-300:] if badidx is None else "", [cases[i] for i in (badidx or [])][:5], second[:5]))
+            if badidx:
+                c = cases[badidx[0]]
+                ctx.violation("serializer:ias15-compression", dict(replay, case={"N_allocated_before": c[0], "N": c[1], "N_var": c[2], "N_allocated_after": c[3]}), True,
+                              "reb_simulation_save_to_stream changed ri_ias15.N_allocated from %d to %d on a simulation with N=%d (N_var=%d); the audited "
+                              "compression gives %d" % (c[0], c[3], c[1], c[2], min(c[0], 3 * c[1])))
         elif mode == "hammer":
             ctx.evaluations += res["runs"]
             for g in params["groups"]:
@@ -397,13 +437,16 @@ def run(ctx):
             if res["n_not_a_boundary"]: bad.append("%d snapshots are not a step-boundary state, e.g. %s" % (res["n_not_a_boundary"], res["not_a_boundary"][:1]))
             if res["continuation_mismatch"]: bad.append("continuing a served snapshot does not reach the reference end state: %s" % res["continuation_mismatch"][:1])
             if not res["trajectory_equal"]: bad.append("trajectory with clients differs from trajectory without")
+            if not res.get("unobserved_equal", True):
+                bad.append("final state of the served run differs from the UNOBSERVED run (no server, nothing ever serialised) in %s doubles"
+                           % res.get("unobserved_differing_doubles"))
             ctx.obligation("validation(real threads): %s — %d snapshots served during %d step boundaries: all are boundary states, %d continued "
                            "bit-for-bit like the reference run's own snapshot of that boundary, trajectory unchanged" % (name, res["served"], res["boundaries"], res["continued"]), not bad, "; ".join(bad))
             ctx.extra.setdefault("server_runs", []).append({k: res[k] for k in ("served", "boundaries", "distinct_served", "continued",
                                                                              "full_stream_mismatch", "client_errors")} | {"continued_to_reference_end": res.get("continued_to_reference_end", 0)} | {"integrator": params["spec"]["integrator"]})
             if bad:
                 ctx.violation("server:" + ("not-a-boundary" if res["n_not_a_boundary"] or res["unparsable"] else
-                                           "trajectory-changed" if not res["trajectory_equal"] else "continuation"),
+                                           "trajectory-changed" if not (res["trajectory_equal"] and res.get("unobserved_equal", True)) else "continuation"),
                               dict(replay, result=res), True, "; ".join(bad)[:400])
         elif mode == "torn":
             ctx.evaluations += res["served"]
